@@ -22,6 +22,7 @@ func propC04(c *Ctx) {
 	c.ruleRegexChecked()
 	c.rulePathVarTypes()
 	c.ruleDepCalls("C04-DEP-CALLS")
+	c.ruleShapeTags()
 }
 
 func (c *Ctx) ruleAccessorPair() {
